@@ -71,6 +71,9 @@ class InverterProtocol:
         return self.response_future
 
     def _close_transport(self) -> None:
+        if self._timer:
+            self._timer.cancel()
+            self._timer = None
         if self._transport:
             try:
                 self._transport.close()
